@@ -13,11 +13,12 @@ the property's own predicates are evaluated on every implementation run:
   P2  it is at most the bound (B_chain / B_fanout of Props/C13.v for chains / fan-outs; the maximum over
       all schedules of the model's state graph for the small configurations);
   P3  no mailbox ever holds more than max_messages undelivered messages;
-  P4  lazy mode: every source advance happens while _can_fetch() is true, i.e. a driving subscriber
-      waits and nobody waits for a message number <= the lowest buffered one;
-  P4s (the literal wording of the property) ... and nobody waits for a message that is already in the
-      mailbox.  The pinned tree violates P4s when a mailbox has a second, slower subscriber: see
-      design_notes/C13.md, finding F1 (known_findings.json).
+  P0  the pipeline does not come to rest while the consumer is still asking (no stall);
+  P4  lazy mode: every source advance happens while _can_fetch() is true: a driving subscriber waits and
+      nobody waits for a message that is already in the mailbox.
+Finding F1 (design_notes/C13.md; fixed in /repo by ede7cda): before the fix _can_fetch compared with the
+lowest buffered number, and P4 failed whenever a mailbox had a second, slower subscriber.  Its deterministic
+witness schedule is replayed on every run; if it is reproduced (a revert) that is a VIOLATION.
 """
 import json
 import logging
@@ -611,11 +612,11 @@ def predicates(case, res, sources, bound=None, qrange=None, strong=False):
                     "never exceeds %d in any schedule" % (d, a, p, qrange[d][1]))
     if case["lazy"]:
         for (step, d, cf, drv, nle, npres) in info["gates"]:
-            if not cf or not drv or not nle:
-                return ("P4: source %s advanced at step %d while _can_fetch()=%s (driver waits: %s, nobody waits "
-                        "for a number <= lowest: %s)" % (d, step, bool(cf), bool(drv), bool(nle)))
-            if strong and not npres:
-                return ("P4s: source %s advanced at step %d while a subscriber was waiting for a message that is "
+            if not cf or not drv:
+                return ("P4: source %s advanced at step %d while _can_fetch()=%s (a driving subscriber waits: %s)"
+                        % (d, step, bool(cf), bool(drv)))
+            if not npres:
+                return ("P4: source %s advanced at step %d while a subscriber was waiting for a message that is "
                         "already in the mailbox" % (d, step))
     return None
 
@@ -734,8 +735,8 @@ def exec_task(task):
             out["disagreements"].append({"what": "harness: run ended with %s %s" % (res.outcome, res.error),
                                          "schedule": res.schedule})
             return
-        f = predicates(case, res, runner.sources, bound=bound, qrange=qrange, strong=False)
-        sf = predicates(case, res, runner.sources, strong=True) if f is None else None
+        f = predicates(case, res, runner.sources, bound=bound, qrange=qrange)
+        sf = None
         if f:
             out["n_failures"] += 1
             if len(out["failures"]) < 2:
@@ -963,7 +964,7 @@ def build_tasks(ctx):
                                   (chain(2), False, 2, 1, 4, 1), (chain(3), True, 1, 1, 2, 1),
                                   (chain(2, savers={0: 1}), True, 1, 1, 3, 1), (fanout(2), True, 1, 1, 2, 1),
                                   (fanout(2), False, 1, 1, 2, 1), (diamond(), True, 1, 1, 2, 1)]:
-        add("dfs", g, lazy, cap, p, N=N, bound_pre=(b + 1 if big else b), max_runs=(20000 if big else 1500 if esc else 600))
+        add("dfs", g, lazy, cap, p, N=N, bound_pre=(b + 1 if big else b), max_runs=(20000 if big else 900 if esc else 300))
     # (3) through a real Context.get_iter with DataDirectory savers
     for g, store in [(chain(3), [1]), (chain(2), []), (fanout(2, tail=True), [2]), (diamond(), [1])]:
         for lazy in (False, True):
@@ -1122,13 +1123,10 @@ def report_f1(ctx, r):
         ctx.violation("lazy-gate",
                       "lazy mode: source d0 advanced %d times (%d of them while build:d1 was waiting for a chunk "
                       "that was already in the mailbox) although the consumer takes only 2 chunks: _can_fetch "
-                      "compares waiting_for with the LOWEST buffered number, not with what is buffered"
+                      "does not test what is buffered (finding F1, fixed by ede7cda, is back)"
                       % (r["counts"].get("d0", 0), len(r["bad"])),
                       {"input": F1_INPUT, "schedule": r["schedule"], "threads": r["names"], "gates": r["gates"],
                        "counts": r["counts"]})
-    else:
-        ctx.notes.append("finding F1 (lazy gate vs. buffered messages) is not reproduced on this tree: the model's "
-                         "C13_lazy_fetch_strong_refuted witness no longer applies to the implementation")
 
 
 # ------------------------------------------------------------------------------------------
